@@ -11,6 +11,7 @@ import (
 	"encoding/base32"
 	"fmt"
 	"os"
+	"sort"
 	"strings"
 	"testing"
 
@@ -349,9 +350,17 @@ func TestVerifC13(t *testing.T) {
 	}
 	names := []rc.Value{nil, "", "x", "/", "a/b", 7}
 	name8s := []rc.Value{nil, "ü"}
+	filesKeys := make([]string, 0, len(filesAlpha))
+	for k := range filesAlpha {
+		filesKeys = append(filesKeys, k)
+	}
+	sort.Strings(filesKeys)
 	for _, pl := range pieceLens {
 		for _, ln := range lengths {
-			for fk, fv := range filesAlpha {
+			// sorted keys: the shards are separate processes and must agree on which
+			// (piece length, length, files) cell each counter value stands for
+			for _, fk := range filesKeys {
+				fv := filesAlpha[fk]
 				if !mine() {
 					continue
 				}
